@@ -304,20 +304,32 @@ Definition on_label (P : program) (hook_len : nat -> nat) (s0 : ospec) (i : nat)
   | _ => s
   end.
 
+Definition set_last_resume (s : ospec) (w : who) (i : nat) : ospec :=
+  {| o_reg := o_reg s; o_next_rid := o_next_rid s; o_next_pid := o_next_pid s; o_pubs := o_pubs s;
+     o_cancel_step := o_cancel_step s; o_filtered := o_filtered s; o_entered := o_entered s; o_fired := o_fired s;
+     o_last_resume := wset (o_last_resume s) w i; o_last_sync := o_last_sync s; o_vague := o_vague s;
+     o_bad := o_bad s |}.
+
+(* An actor parked at the observability hook OnHandlerStart of a sync handler has already passed the cancellation
+   check of that handler (event_bus.go: the select on ctx.Done() precedes callHandlerWithContext): the handler it
+   enters next is judged against the resumption in which that check ran, so the new resumption index takes effect
+   only after the first label of this step. *)
 Definition walk_step (P : program) (hook_len : nat -> nat) (s : ospec) (i : nat) (st : ostep) : ospec :=
   let w := os_who st in
-  let s0 := if os_resumed st then
-              {| o_reg := o_reg s; o_next_rid := o_next_rid s; o_next_pid := o_next_pid s; o_pubs := o_pubs s;
-                 o_cancel_step := o_cancel_step s; o_filtered := o_filtered s; o_entered := o_entered s; o_fired := o_fired s;
-                 o_last_resume := wset (o_last_resume s) w i; o_last_sync := o_last_sync s; o_vague := o_vague s;
-                 o_bad := o_bad s |}
-            else s in
+  let late := match os_from st with Some (LHandlerStart _ false) => true | _ => false end in
+  let s0 := if os_resumed st && negb late then set_last_resume s w i else s in
   let s1 := match os_from st with
             | Some (LAct a) => apply_action P s0 i w a (os_emitted st)
             | _ => s0
             end in
   let s2 := if os_resumed st then refresh_cands s1 w else s1 in
-  fold_left (fun acc l => on_label P hook_len acc i w l) (os_emitted st) s2.
+  if os_resumed st && late then
+    match os_emitted st with
+    | [] => set_last_resume s2 w i
+    | l :: rest => fold_left (fun acc l => on_label P hook_len acc i w l) rest
+                             (set_last_resume (on_label P hook_len s2 i w l) w i)
+    end
+  else fold_left (fun acc l => on_label P hook_len acc i w l) (os_emitted st) s2.
 
 Fixpoint walk (P : program) (hook_len : nat -> nat) (s : ospec) (i : nat) (steps : list ostep) : ospec :=
   match steps with
